@@ -75,6 +75,26 @@ def run(ck, tier):
                           e["plants"], [[(h["ab"], h["ae"], h["bb"], h["be"], h["score"]) for h in ps["hits"]][:5] for ps in e["passes"]]),
                          {"kind": "pals-case", "seed": ck.seed, "case": e["id"], "record": e, "why": why,
                           "cmd": "vpals run -n %d -seed %d (case %d)" % (n, ck.seed, e["id"])})
+        # the recorded comparison of every listed finding, repeated on the real pipeline and judged like any other:
+        # a line KNOWN-FINDING only while it still fails the way the entry says
+        for k in vlib.known_findings("C15"):
+            wf = os.path.join(vlib.VERIF, k["witness"])
+            wo = os.path.join(work, "witness.ndjson")
+            vlib.harness(["witness", "-in", wf, "-out", wo], cmd="vpals", timeout=600)
+            wv, r = vlib.validate("Pals", "PalsTrace", "PalsTrace.cfg", wo, include=["Align"], timeout=600)
+            ck.mc("trace:witness", r, "recorded comparison of %s" % k["key"])
+            ck.traces += 1
+            we = vlib.read_ndjson(wo)[0]
+            whys = [why for _, why in wv["fails"]]
+            if any(w.startswith("a planted repeat was not recovered") for w in whys) and len(whys) == 1:
+                ck.known_finding(k["key"], "minlen=%d minid=%.2f filter=%s: the copy T[%d:%d] -> Q[%d:%d] of %s is not reported (hits: %s)" %
+                                 (we["minlen"], we["minid_ppm"] / 1e6, we.get("filter"), we["plants"][0]["ta"], we["plants"][0]["tb"],
+                                  we["plants"][0]["qa"], we["plants"][0]["qb"], k["witness"],
+                                  [[(h["ab"], h["ae"], h["bb"], h["be"]) for h in ps["hits"]][:3] for ps in we["passes"]]))
+            elif whys:
+                ck.violation("recorded comparison %s: %s" % (k["witness"], whys[0]), {"kind": "pals-witness", "witness": k["witness"], "record": we})
+            else:
+                vlib.log("  [note] the recorded comparison of %s no longer fails" % k["key"])
         # extension (beyond C15): Packer layout and NewPair's mapping of packed coordinates back to contigs
         r = vlib.tlc("Pals", "Pack", "PackMC.cfg", workers=4, timeout=900)
         vlib.tlc_expect_ok(r, "PackMC")
